@@ -88,8 +88,25 @@ def cmd_run(name, checks, tier):
     mp.write_text(json.dumps(meta, indent=1) + "\n")
     return 0
 
+def cmd_batch(out_dir, prop, checks):
+    """Import every sub-directory (A, B, C ...) of out_dir as the next free <prop>-<n> and run the checks against each."""
+    out_dir = Path(out_dir)
+    names = []
+    for sub in sorted(p for p in out_dir.iterdir() if p.is_dir() and (p / "patch.diff").exists()):
+        n = 1
+        while (VERIF / "seeded" / ("%s-%d" % (prop, n))).exists():
+            n += 1
+        name = "%s-%d" % (prop, n)
+        if cmd_import(sub, name) == 0:
+            names.append(name)
+    for name in names:
+        cmd_run(name, checks or [prop], "quick")
+    return 0
+
 if __name__ == "__main__":
     a = sys.argv[1:]
+    if a and a[0] == "batch":
+        sys.exit(cmd_batch(a[1], a[2], a[3:]))
     if a and a[0] == "import":
         sys.exit(cmd_import(a[1], a[2]))
     if a and a[0] == "run":
